@@ -1,6 +1,12 @@
 """C03: the declarative part of the result assembly -> Gen_C03.v (src_tables, src_shape).
 
-Read from the CURRENT source tree, fail closed on any shape that is not listed here:
+Read from the CURRENT source tree, fail closed on any shape that is not listed here.  Every function is first brought
+into a NORMAL FORM by translator/c03_norm.py (private helpers / methods inlined, a private `def f: return e` handed over as a
+function object -> lambda, guard clauses and early returns / continues -> if/else, `not` pushed inward, negated test with an
+else branch -> branches swapped, nested ifs merged, match on literals -> if/elif, single-assignment aliases of stable
+expressions and a boolean used by the very next `if` substituted, module-level constants resolved, f-strings flattened), and
+every branching block (key loops, the dtype restoration, the debug comparison) is RUN for all valuations of its conditions
+instead of being compared by shape -- so the shapes below stand for everything these normalisations map onto them:
 
 * pyxel/exposure/exposure.py `_extract_datatree_2d`: the tuple of keys, which of them the loop skips, that the
   variable `dataset[key]` is `getattr(detector, key).to_xarray()` (same key on both sides; an unrolled
@@ -24,10 +30,12 @@ Read from the CURRENT source tree, fail closed on any shape that is not listed h
 from __future__ import annotations
 
 import ast
+import re
 from pathlib import Path
 
 from harness.core import TranslationError
 
+from . import c03_norm as N
 from .common import HEADER, body_no_doc, fail, find_func, parse
 
 BUCKET = dict(photon="Photon", charge="Charge", pixel="Pixel", signal="Signal", image="Image")
@@ -37,9 +45,17 @@ KINDS = ["KPhoton2", "KPhoton3", "KCharge", "KPixel", "KSignal", "KImage"]
 # ------------------------------------------------------------------------------------------ helpers
 
 
-def _assigns(fn: ast.AST) -> dict:
-    """name -> list of value expressions assigned to it anywhere in fn (simple and annotated assignments)."""
+def _assigns(fn: ast.AST, module: ast.Module | None = None) -> dict:
+    """name -> list of value expressions assigned to it anywhere in fn (simple and annotated assignments); with `module`:
+    a name that fn does not bind at all is looked up among the module-level assignments (a constant moved out of fn)."""
     out: dict = {}
+    if module is not None:
+        bound = N.bindings(fn)
+        for n in module.body:
+            if isinstance(n, ast.Assign) and len(n.targets) == 1 and isinstance(n.targets[0], ast.Name) and n.targets[0].id not in bound:
+                out.setdefault(n.targets[0].id, []).append(n.value)
+            elif isinstance(n, ast.AnnAssign) and isinstance(n.target, ast.Name) and n.value is not None and n.target.id not in bound:
+                out.setdefault(n.target.id, []).append(n.value)
     for n in ast.walk(fn):
         if isinstance(n, ast.Assign) and len(n.targets) == 1 and isinstance(n.targets[0], ast.Name):
             out.setdefault(n.targets[0].id, []).append(n.value)
@@ -57,6 +73,24 @@ def _resolve(node: ast.AST, env: dict, depth: int = 0) -> ast.AST:
         node = vals[0]
         depth += 1
     return node
+
+
+class _WriteOut(ast.NodeTransformer):
+    def __init__(self, env, depth=0):
+        self.env, self.depth = env, depth
+
+    def visit_Name(self, node):
+        vals = self.env.get(node.id, [])
+        if isinstance(node.ctx, ast.Load) and len(vals) == 1 and self.depth < 6:
+            import copy
+            return _WriteOut(self.env, self.depth + 1).visit(copy.deepcopy(vals[0]))
+        return node
+
+
+def _written_out(node: ast.AST, env: dict) -> ast.AST:
+    """The expression with every single-assignment name of env replaced by its value (named intermediate results)."""
+    import copy
+    return _WriteOut(env).visit(copy.deepcopy(node))
 
 
 def _const_str(node: ast.AST) -> str:
@@ -95,33 +129,33 @@ def _bucket(name: str, node=None) -> str:
 # ------------------------------------------------------------------------------------------ _extract_datatree_2d
 
 
-def _skipped(test: ast.AST, var: str, key: str) -> bool:
-    """Evaluate the skip test of the loop for one key: or / and / not of key.startswith(c), key == c, key in (..)."""
-    if isinstance(test, ast.BoolOp):
-        vals = [_skipped(v, var, key) for v in test.values]
-        return any(vals) if isinstance(test.op, ast.Or) else all(vals)
-    if isinstance(test, ast.UnaryOp) and isinstance(test.op, ast.Not):
-        return not _skipped(test.operand, var, key)
+def _key_atom(test: ast.AST, var: str, key: str):
+    """One leaf of a condition on the loop key, for one key: key.startswith(c) / key.endswith(c), key == c, key in (..);
+    None for anything else (not a condition on the key)."""
     if (isinstance(test, ast.Call) and isinstance(test.func, ast.Attribute) and test.func.attr in ("startswith", "endswith")
             and isinstance(test.func.value, ast.Name) and test.func.value.id == var and len(test.args) == 1 and not test.keywords):
-        c = _const_str(test.args[0])
-        return key.startswith(c) if test.func.attr == "startswith" else key.endswith(c)
-    if isinstance(test, ast.Compare) and len(test.ops) == 1 and isinstance(test.left, ast.Name) and test.left.id == var:
-        op, rhs = test.ops[0], test.comparators[0]
-        if isinstance(op, (ast.Eq, ast.NotEq)):
-            r = key == _const_str(rhs)
-            return r if isinstance(op, ast.Eq) else not r
-        if isinstance(op, (ast.In, ast.NotIn)):
-            r = key in _str_tuple(rhs)
-            return r if isinstance(op, ast.In) else not r
-    fail(test, "skip test of the key loop")
+        a = test.args[0]
+        cs = tuple(_str_tuple(a)) if isinstance(a, (ast.Tuple, ast.List)) else (_const_str(a),)
+        return key.startswith(cs) if test.func.attr == "startswith" else key.endswith(cs)
+    if isinstance(test, ast.Compare) and len(test.ops) == 1:
+        op, lhs, rhs = test.ops[0], test.left, test.comparators[0]
+        if isinstance(op, (ast.Eq, ast.NotEq)) and isinstance(rhs, ast.Name) and rhs.id == var:
+            lhs, rhs = rhs, lhs                                  # "charge" == name
+        if isinstance(lhs, ast.Name) and lhs.id == var:
+            if isinstance(op, (ast.Eq, ast.NotEq)):
+                r = key == _const_str(rhs)
+                return r if isinstance(op, ast.Eq) else not r
+            if isinstance(op, (ast.In, ast.NotIn)):
+                r = key in _str_tuple(rhs)
+                return r if isinstance(op, ast.In) else not r
+    return None
 
 
 def _extract(tree: ast.Module) -> dict:
-    fn = find_func(tree, "_extract_datatree_2d")
+    fn = N.normalize(find_func(tree, "_extract_datatree_2d"), tree)
     if [a.arg for a in fn.args.args] != ["detector"]:
         fail(fn, "_extract_datatree_2d signature")
-    env = _assigns(fn)
+    env = _assigns(fn, tree)
     body = body_no_doc(fn)
     loops = [n for n in body if isinstance(n, ast.For)]
     pairs: list = []
@@ -132,46 +166,44 @@ def _extract(tree: ast.Module) -> dict:
             fail(lp, "key loop target")
         var = lp.target.id
         keys = _str_tuple(_resolve(lp.iter, env))
-        skip_tests = []
         lenv = _assigns(lp)
-        stores = []
-        for st in lp.body:
-            if isinstance(st, ast.If) and len(st.body) == 1 and isinstance(st.body[0], ast.Continue) and not st.orelse:
-                skip_tests.append(st.test)
-            elif isinstance(st, ast.If) and all(isinstance(x, ast.Raise) for x in st.body) and not st.orelse:
-                continue                                   # a type check that raises
-            elif isinstance(st, (ast.Assign, ast.AnnAssign)):
-                tgt = st.targets[0] if isinstance(st, ast.Assign) else st.target
-                if isinstance(tgt, ast.Subscript):
-                    stores.append(st)
-                elif isinstance(tgt, ast.Attribute) and tgt.attr == "name":
-                    continue                               # data_array.name = ...
-                elif not isinstance(tgt, ast.Name):
-                    fail(st, "statement of the key loop")
-            elif isinstance(st, ast.Expr) and isinstance(st.value, ast.Constant):
-                continue
-            else:
-                fail(st, "statement of the key loop")
-        if len(stores) != 1:
-            fail(lp, "the key loop must store exactly one variable per key")
-        st = stores[0]
-        tgt = st.targets[0] if isinstance(st, ast.Assign) else st.target
-        if not (isinstance(tgt.value, ast.Name) and isinstance(tgt.slice, ast.Name) and tgt.slice.id == var):
-            fail(st, "expected `dataset[key] = ...`")
-        ds_name = tgt.value.id
-        val = _resolve(st.value, lenv)
-        # <obj>.to_xarray() with <obj> = getattr(detector, key)
-        if not (isinstance(val, ast.Call) and isinstance(val.func, ast.Attribute) and val.func.attr == "to_xarray"
-                and not val.args and not val.keywords):
-            fail(val, "the stored variable must be `<container>.to_xarray()`")
-        obj = _resolve(val.func.value, lenv)
-        if not (_is_call(obj, "getattr") and len(obj.args) == 2 and ast.unparse(obj.args[0]) == "detector"
-                and isinstance(obj.args[1], ast.Name) and obj.args[1].id == var):
-            fail(obj, "the container must be `getattr(detector, key)` with the loop key")
         for k in keys:
-            if any(_skipped(t, var, k) for t in skip_tests):
-                continue
+            # the statements the loop body executes for this key (whatever the nesting / guard-clause style)
+            stores = []
+            for st in N.execute(lp.body, lambda t, k=k: _key_atom(t, var, k)):
+                if isinstance(st, (ast.Assign, ast.AnnAssign)):
+                    tgt = st.targets[0] if isinstance(st, ast.Assign) else st.target
+                    if isinstance(tgt, ast.Subscript):
+                        stores.append(st)
+                    elif isinstance(tgt, ast.Attribute) and tgt.attr == "name":
+                        continue                               # data_array.name = ...
+                    elif not isinstance(tgt, ast.Name):
+                        fail(st, "statement of the key loop")
+                else:
+                    fail(st, "statement of the key loop")
+            if not stores:
+                continue                                       # this key is skipped
+            if len(stores) != 1:
+                fail(lp, "the key loop must store exactly one variable per key")
+            st = stores[0]
+            tgt = st.targets[0] if isinstance(st, ast.Assign) else st.target
+            if not (isinstance(tgt.value, ast.Name) and isinstance(tgt.slice, ast.Name) and tgt.slice.id == var):
+                fail(st, "expected `dataset[key] = ...`")
+            if ds_name not in (None, tgt.value.id):
+                fail(st, "two step datasets")
+            ds_name = tgt.value.id
+            val = _resolve(st.value, lenv)
+            # <obj>.to_xarray() with <obj> = getattr(detector, key)
+            if not (isinstance(val, ast.Call) and isinstance(val.func, ast.Attribute) and val.func.attr == "to_xarray"
+                    and not val.args and not val.keywords):
+                fail(val, "the stored variable must be `<container>.to_xarray()`")
+            obj = _resolve(val.func.value, lenv)
+            if not (_is_call(obj, "getattr") and len(obj.args) == 2 and ast.unparse(obj.args[0]) == "detector"
+                    and isinstance(obj.args[1], ast.Name) and obj.args[1].id == var):
+                fail(obj, "the container must be `getattr(detector, key)` with the loop key")
             pairs.append((k, k))
+        if not pairs:
+            fail(fn, "no variable is stored in the step dataset")
     elif not loops:
         # unrolled: dataset["k"] = detector.<attr>.to_xarray()
         for st in body:
@@ -217,8 +249,8 @@ def _extract(tree: ast.Module) -> dict:
     base = ed[0].func.value
     if not (isinstance(base, ast.Name) and base.id == ds_name):
         fail(ed[0], "expand_dims must be applied to the dataset the variables were stored in")
-    if not (isinstance(ac[0].func.value, ast.Call) and ac[0].func.value is ed[0]):
-        # accept dataset.expand_dims(..).assign_coords(..) only
+    if _resolve(ac[0].func.value, env) is not ed[0]:
+        # dataset.expand_dims(..).assign_coords(..), possibly with the expanded dataset as a named intermediate result
         fail(ac[0], "expected `dataset.expand_dims(dim=...).assign_coords(...)`")
     rets = [n for n in ast.walk(fn) if isinstance(n, ast.Return)]
     if len(rets) != 1 or not _is_call(rets[0].value, "xr.DataTree") or len(rets[0].value.args) != 1:
@@ -237,9 +269,24 @@ def _guard_of(test: ast.AST) -> str | None:
     return {"with_inherited_coords": "GHier", "debug": "GDebug", "outputs and outputs.save_data_to_file": "GOutputs"}.get(t)
 
 
+class _Fold(ast.NodeTransformer):
+    """Write the attribute chain `chain` as the plain name `name` (the alias the tables are phrased in)."""
+
+    def __init__(self, chain: str, name: str):
+        self.chain, self.name = chain, name
+
+    def visit_Attribute(self, node):
+        if ast.unparse(node) == self.chain and isinstance(node.ctx, ast.Load):
+            return ast.Name(id=self.name, ctx=ast.Load())
+        return self.generic_visit(node)
+
+
 def _run_pipeline(tree: ast.Module) -> dict:
-    fn = find_func(tree, "run_pipeline")
-    env = _assigns(fn)
+    fn = N.normalize(find_func(tree, "run_pipeline"), tree, keep=("_extract_datatree_2d",))
+    if "detector" not in N.bindings(fn):
+        # `detector = processor.detector` is a single-assignment alias (substituted by the normalisation)
+        fn = ast.fix_missing_locations(_Fold("processor.detector", "detector").visit(fn))
+    env = _assigns(fn, tree)
     loops = [n for n in ast.walk(fn) if isinstance(n, ast.For)]
     if len(loops) != 1:
         fail(fn, "run_pipeline must contain exactly one loop over the readout steps")
@@ -300,10 +347,9 @@ def _run_pipeline(tree: ast.Module) -> dict:
             names = [ast.unparse(a) for a in comb.args[1:]]
             out["concat_order"] = ["accumulated" if n == acc else "step" if n == step else "?" for n in names]
             order.append("concat")
-            rest = st.orelse[1:]
-            if len(rest) != 1 or not isinstance(rest[0], ast.If) or rest[0].orelse:
+            fix = [x for x in st.orelse[1:] if not N.is_noise(x)]
+            if not fix:
                 fail(st, "expected the dtype restoration after the combination")
-            fix = rest[0]
         elif isinstance(st, (ast.Assign, ast.AnnAssign, ast.Expr, ast.If)):
             if any(c in ("detector.empty", "processor.run_pipeline", "_extract_datatree_2d", "xr.concat", "xr.merge",
                          "xr.map_over_datasets") for c in calls):
@@ -317,52 +363,94 @@ def _run_pipeline(tree: ast.Module) -> dict:
     init = env.get(acc, [])
     if not any(_is_call(v, "xr.DataTree") and not v.args and not v.keywords for v in init):
         fail(fn, "the accumulated tree must start as an empty xr.DataTree()")
-    # dtype restoration
-    if ast.unparse(fix.test) != "detector.image._array is not None":
-        fail(fix.test, "the dtype restoration must be guarded by `detector.image._array is not None`")
+    # dtype restoration: the block is RUN for every valuation of (container initialised, dtypes differ, result unsigned)
+    fenv = _assigns(ast.Module(body=fix, type_ignores=[]))
+
+    def res(n):
+        return ast.unparse(_resolve(n, fenv))
+
+    seen = dict(guard=set(), var=set(), target=set())
+
+    def is_result_dtype(txt):
+        m = re.fullmatch(re.escape(acc) + r"\[['\"](\w+)['\"]\]\.dtype", txt)
+        if m:
+            seen["var"].add(m.group(1))
+        return bool(m)
+
+    def is_detector_dtype(txt):
+        m = re.fullmatch(r"detector\.(\w+)\.dtype", txt)
+        if m:
+            seen["target"].add(m.group(1))
+        return bool(m)
+
+    def make_atom(init, differ, unsigned):
+        def atom(t):
+            if isinstance(t, ast.Compare) and len(t.ops) == 1:
+                op, lhs, rhs = t.ops[0], t.left, t.comparators[0]
+                if isinstance(op, (ast.Is, ast.IsNot)) and isinstance(rhs, ast.Constant) and rhs.value is None:
+                    m = re.fullmatch(r"detector\.(\w+)\._array", res(lhs))
+                    if m:
+                        seen["guard"].add(m.group(1))
+                        return init if isinstance(op, ast.IsNot) else not init
+                if isinstance(op, (ast.Eq, ast.NotEq)):
+                    l, r = res(lhs), res(rhs)
+                    if (is_result_dtype(l) and is_detector_dtype(r)) or (is_result_dtype(r) and is_detector_dtype(l)):
+                        return differ if isinstance(op, ast.NotEq) else not differ
+                if (isinstance(lhs, ast.Attribute) and lhs.attr == "kind" and is_result_dtype(res(lhs.value))
+                        and isinstance(op, (ast.Eq, ast.NotEq, ast.In, ast.NotIn))
+                        and ast.unparse(rhs) in ("'u'", "('u',)", "['u']", "{'u'}")
+                        and (isinstance(rhs, ast.Constant) or isinstance(op, (ast.In, ast.NotIn)))):
+                    return unsigned if isinstance(op, (ast.Eq, ast.In)) else not unsigned
+            if (isinstance(t, ast.Call) and ast.unparse(t.func) in ("np.issubdtype", "numpy.issubdtype") and len(t.args) == 2
+                    and not t.keywords and is_result_dtype(res(t.args[0]))
+                    and ast.unparse(t.args[1]) in ("np.unsignedinteger", "numpy.unsignedinteger")):
+                return unsigned
+            return None
+        return atom
+
+    table = {}
+    casts = set()
+    for init in (False, True):
+        for differ in (False, True):
+            for unsigned in (False, True):
+                done = False
+                for x in N.execute(fix, make_atom(init, differ, unsigned)):
+                    if not isinstance(x, (ast.Assign, ast.AnnAssign)):
+                        fail(x, "statement of the dtype restoration")
+                    tgt = x.targets[0] if isinstance(x, ast.Assign) else x.target
+                    if isinstance(tgt, ast.Name):
+                        if not init and is_detector_dtype(ast.unparse(x.value)):
+                            fail(x, "the detector's dtype is read although the container is not initialised")
+                        continue
+                    if not (isinstance(tgt, ast.Subscript) and ast.unparse(tgt.value) == acc) or done:
+                        fail(x, "expected `<accumulated>[var] = <accumulated>[var].astype(...)`")
+                    var = _const_str(tgt.slice)
+                    cv = x.value
+                    if not (isinstance(cv, ast.Call) and isinstance(cv.func, ast.Attribute) and cv.func.attr == "astype"
+                            and ast.unparse(cv.func.value) == f"{acc}[{var!r}]"):
+                        fail(cv, "expected `<accumulated>[var].astype(...)`")
+                    d = cv.args[0] if cv.args else _kw(cv, "dtype")
+                    if d is None or not is_detector_dtype(res(d)):
+                        fail(cv, "the target dtype must be `detector.<container>.dtype`")
+                    seen["var"].add(var)
+                    casts.add(ast.unparse(cv))
+                    done = True
+                table[(init, differ, unsigned)] = done
+    if not any(table.values()):
+        fail(fix[0], "the dtype restoration never casts")
+    if any(v for (i, _d, _u), v in table.items() if not i):
+        fail(fix[0], "the dtype restoration must be guarded by `detector.image._array is not None`")
     out["fix_guarded"] = True
-    fenv = _assigns(fix)
-    inner_ifs = [n for n in fix.body if isinstance(n, ast.If)]
-    if len(inner_ifs) != 1 or inner_ifs[0].orelse or len(inner_ifs[0].body) != 1:
-        fail(fix, "expected `if <dtype of the result> != <dtype of the detector's image>: <cast>`")
-    cmp_ = inner_ifs[0].test
-    # `<result dtype> != <detector dtype>`, possibly `and <the result dtype is not an unsigned integer type>`
-    keeps_unsigned = False
-    if isinstance(cmp_, ast.BoolOp) and isinstance(cmp_.op, ast.And) and len(cmp_.values) == 2:
-        parts = [v for v in cmp_.values if isinstance(v, ast.Compare) and len(v.ops) == 1 and isinstance(v.ops[0], ast.NotEq)
-                 and not (isinstance(v.left, ast.Attribute) and v.left.attr == "kind")]
-        if len(parts) != 1:
-            fail(cmp_, "dtype comparison")
-        other = [v for v in cmp_.values if v is not parts[0]][0]
-        res_dt = ast.unparse(parts[0].left)
-        accepted = {f"{res_dt}.kind != 'u'", f"{res_dt}.kind not in 'u'", f"{res_dt}.kind not in ('u',)", f"{res_dt}.kind not in ['u']",
-                    f"not np.issubdtype({res_dt}, np.unsignedinteger)", f"not numpy.issubdtype({res_dt}, numpy.unsignedinteger)"}
-        if ast.unparse(other) not in accepted:
-            fail(other, "second condition of the dtype restoration (expected: the result dtype is not an unsigned integer type)")
-        keeps_unsigned = True
-        cmp_ = parts[0]
-    if not (isinstance(cmp_, ast.Compare) and len(cmp_.ops) == 1 and isinstance(cmp_.ops[0], ast.NotEq)):
-        fail(cmp_, "dtype comparison")
-    out["fix_keeps_unsigned"] = keeps_unsigned
-    lhs, rhs = _resolve(cmp_.left, fenv), _resolve(cmp_.comparators[0], fenv)
-    cast = inner_ifs[0].body[0]
-    if not (isinstance(cast, ast.Assign) and isinstance(cast.targets[0], ast.Subscript)
-            and ast.unparse(cast.targets[0].value) == acc):
-        fail(cast, "expected `<accumulated>[var] = <accumulated>[var].astype(...)`")
-    var = _const_str(cast.targets[0].slice)
-    cv = cast.value
-    if not (isinstance(cv, ast.Call) and isinstance(cv.func, ast.Attribute) and cv.func.attr == "astype"
-            and ast.unparse(cv.func.value) == f"{acc}[{var!r}]"):
-        fail(cv, "expected `<accumulated>[var].astype(...)`")
-    tgt_dt = _resolve(cv.args[0] if cv.args else _kw(cv, "dtype"), fenv)
-    if ast.unparse(lhs) != f"{acc}[{var!r}].dtype" or ast.unparse(rhs) != ast.unparse(tgt_dt):
-        fail(cmp_, "the comparison and the cast must use the same two dtypes")
-    t = ast.unparse(tgt_dt)
-    if not (t.startswith("detector.") and t.endswith(".dtype")):
-        fail(tgt_dt, "the target dtype must be `detector.<container>.dtype`")
-    out["fix_var"], out["fix_target"] = var, t[len("detector."):-len(".dtype")]
-    if ast.unparse(fix.test) != f"detector.{out['fix_target']}._array is not None":
-        fail(fix.test, "guard and target container differ")
+    if all(v == (i and d and not u) for (i, d, u), v in table.items()):
+        out["fix_keeps_unsigned"] = True
+    elif all(v == (i and d) for (i, d, u), v in table.items()):
+        out["fix_keeps_unsigned"] = False
+    else:
+        fail(fix[0], "the dtype restoration must cast exactly when the container is initialised and the dtypes differ "
+                     "(possibly: and the result dtype is not an unsigned integer type)")
+    if len(seen["var"]) != 1 or len(seen["target"]) != 1 or seen["guard"] != seen["target"] or len(casts) != 1:
+        fail(fix[0], "guard, comparison and cast must use one variable of the result and one container of the detector")
+    out["fix_var"], out["fix_target"] = next(iter(seen["var"])), next(iter(seen["target"]))
     # the final dictionary
     dct = None
     layout = []
@@ -520,8 +608,8 @@ def _readouts(repo: Path) -> dict:
     out = {}
     # ArrayBase: pixel, signal, image
     tarr = parse(repo, "pyxel/data_structure/array.py")
-    fn = find_func(tarr, "to_xarray", "ArrayBase")
-    env = _assigns(fn)
+    fn = N.normalize(find_func(tarr, "to_xarray", "ArrayBase"), tarr, _class(tarr, "ArrayBase"))
+    env = _assigns(fn, tarr)
     rets = [n for n in ast.walk(fn) if isinstance(n, ast.Return) and n.value is not None]
     full = [r for r in rets if not (_is_call(r.value, "xr.DataArray") and not r.value.args and not r.value.keywords)]
     if len(full) != 1 or len(rets) != 2:
@@ -537,17 +625,18 @@ def _readouts(repo: Path) -> dict:
         out[kind] = base
     # Charge
     tch = parse(repo, "pyxel/data_structure/charge.py")
-    fn = find_func(tch, "to_xarray", "Charge")
-    env = _assigns(fn)
+    fn = N.normalize(find_func(tch, "to_xarray", "Charge"), tch, _class(tch, "Charge"))
+    env = _assigns(fn, tch)
     rets = [n for n in ast.walk(fn) if isinstance(n, ast.Return) and n.value is not None]
     if len(rets) != 1:
         fail(fn, "Charge.to_xarray: one return expected")
     out["KCharge"] = _da_return(fn, rets[0].value, env)
     # Photon
     tph = parse(repo, "pyxel/data_structure/photon.py")
-    fn = find_func(tph, "to_xarray", "Photon")
-    env = _assigns(fn)
-    branch = [n for n in fn.body if isinstance(n, ast.If) and "isinstance" in ast.unparse(n.test)]
+    fn = N.normalize(find_func(tph, "to_xarray", "Photon"), tph, _class(tph, "Photon"))
+    env = _assigns(fn, tph)
+    # normal form: every early `return` has become an if/else, a negated test has its branches swapped
+    branch = [n for n in ast.walk(fn) if isinstance(n, ast.If) and "isinstance" in ast.unparse(n.test)]
     if len(branch) != 1 or ast.unparse(branch[0].test) != "isinstance(self._array, np.ndarray)" or not branch[0].orelse:
         fail(fn, "Photon.to_xarray: expected `if isinstance(self._array, np.ndarray): <2-D> else: <3-D>`")
     r2 = [n for n in branch[0].body if isinstance(n, ast.Return)]
@@ -615,8 +704,8 @@ def _readouts(repo: Path) -> dict:
 
 def _visible(repo: Path) -> dict:
     t = parse(repo, "pyxel/detectors/detector.py")
-    fn = find_func(t, "to_xarray", "Detector")
-    env = _assigns(fn)
+    fn = N.normalize(find_func(t, "to_xarray", "Detector"), t, _class(t, "Detector"))
+    env = _assigns(fn, t)
     loops = [n for n in body_no_doc(fn) if isinstance(n, ast.For)]
     if len(loops) != 1 or not isinstance(loops[0].target, ast.Name):
         fail(fn, "Detector.to_xarray must contain one loop over the container names")
@@ -624,40 +713,60 @@ def _visible(repo: Path) -> dict:
     var = lp.target.id
     names = _str_tuple(_resolve(lp.iter, env))
     lenv = _assigns(lp)
-    skip = set()
-    ndim = False
-    stored = False
-    for st in lp.body:
-        if isinstance(st, ast.If) and len(st.body) == 1 and isinstance(st.body[0], ast.Continue) and not st.orelse:
-            # if name == "charge" and bool((data_array == 0).all()): continue
-            t_ = st.test
-            if not (isinstance(t_, ast.BoolOp) and isinstance(t_.op, ast.And) and len(t_.values) == 2
-                    and isinstance(t_.values[0], ast.Compare) and ast.unparse(t_.values[0].left) == var
-                    and isinstance(t_.values[0].ops[0], ast.Eq)
-                    and ast.unparse(t_.values[1]).replace(" ", "") in ("bool((data_array==0).all())", "(data_array==0).all()")):
-                fail(st, "skip rule of Detector.to_xarray")
-            skip.add(_const_str(t_.values[0].comparators[0]))
-        elif isinstance(st, ast.If) and not st.orelse and len(st.body) == 1 and isinstance(st.body[0], ast.Assign):
-            if ast.unparse(st.test).replace(" ", "") != "data_array.ndim!=0":
-                fail(st, "filter of Detector.to_xarray")
-            a = st.body[0]
-            if not (isinstance(a.targets[0], ast.Subscript) and isinstance(a.targets[0].slice, ast.Name)
-                    and a.targets[0].slice.id == var):
-                fail(a, "expected `ds[name] = data_array`")
-            val = _resolve(a.value, lenv)
+    tested, stored_names = set(), set()
+
+    def stored(name: str, allzero: bool, nd: bool) -> bool:
+        """Is `ds[name]` stored for a read-out that is / is not all zero and has / has not ndim != 0?  (the loop body is RUN)"""
+        def atom(t_):
+            r = _key_atom(t_, var, name)
+            if r is not None:
+                return r
+            txt = ast.unparse(t_).replace(" ", "")
+            m = re.fullmatch(r"\((\w+)==0\)\.all\(\)", txt)
+            if m:
+                tested.add(m.group(1))
+                return allzero
+            m = re.fullmatch(r"(\w+)\.ndim(!=|==|>)0", txt)
+            if m:
+                tested.add(m.group(1))
+                return nd if m.group(2) != "==" else not nd
+            return None
+        n_st = 0
+        for st in N.execute(lp.body, atom):
+            if not isinstance(st, (ast.Assign, ast.AnnAssign)):
+                fail(st, "statement of Detector.to_xarray's loop")
+            tgt = st.targets[0] if isinstance(st, ast.Assign) else st.target
+            if isinstance(tgt, ast.Name):
+                continue
+            if not (isinstance(tgt, ast.Subscript) and isinstance(tgt.slice, ast.Name) and tgt.slice.id == var):
+                fail(st, "expected `ds[name] = data_array`")
+            val = _resolve(st.value, lenv)
             if not (isinstance(val, ast.Call) and isinstance(val.func, ast.Attribute) and val.func.attr == "to_xarray"):
-                fail(a, "the stored variable must be `<container>.to_xarray()`")
+                fail(st, "the stored variable must be `<container>.to_xarray()`")
             obj = _resolve(val.func.value, lenv)
             if not (_is_call(obj, "getattr") and ast.unparse(obj.args[0]) == "self" and ast.unparse(obj.args[1]) == var):
                 fail(obj, "the container must be `getattr(self, name)`")
-            ndim = stored = True
-        elif isinstance(st, (ast.Assign, ast.AnnAssign)):
-            continue
-        else:
-            fail(st, "statement of Detector.to_xarray's loop")
-    if not stored:
+            if isinstance(st.value, ast.Name):
+                stored_names.add(st.value.id)
+            n_st += 1
+        if n_st > 1:
+            fail(lp, "a container is stored twice")
+        return n_st == 1
+
+    tab = {n: {(z, d): stored(n, z, d) for z in (False, True) for d in (False, True)} for n in names}
+    if tested - stored_names:
+        fail(lp, f"conditions on something else than the stored read-out: {sorted(tested - stored_names)}")
+    vis = [n for n in names if tab[n][(False, True)]]
+    if not vis:
         fail(fn, "Detector.to_xarray stores nothing")
-    return dict(visible=[(n, n) for n in names], skip_zero=sorted(skip), ndim_filter=ndim)
+    if all(not tab[n][(z, False)] for n in vis for z in (False, True)):
+        ndim = True
+    elif all(tab[n][(z, False)] == tab[n][(z, True)] for n in vis for z in (False, True)):
+        ndim = False
+    else:
+        fail(lp, "filter of Detector.to_xarray")
+    skip = {n for n in vis if not tab[n][(True, True)]}
+    return dict(visible=[(n, n) for n in vis], skip_zero=sorted(skip), ndim_filter=ndim)
 
 
 # ------------------------------------------------------------------------------------------ ModelGroup.run
@@ -665,7 +774,7 @@ def _visible(repo: Path) -> dict:
 
 def _debug(repo: Path) -> dict:
     t = parse(repo, "pyxel/pipelines/model_group.py")
-    fn = find_func(t, "run", "ModelGroup")
+    fn = N.normalize(find_func(t, "run", "ModelGroup"), t, _class(t, "ModelGroup"))
     loops = [n for n in body_no_doc(fn) if isinstance(n, ast.For)]
     if len(loops) != 1 or not isinstance(loops[0].target, ast.Name):
         fail(fn, "ModelGroup.run loop")
@@ -673,23 +782,33 @@ def _debug(repo: Path) -> dict:
     var = lp.target.id
     idx_call = idx_ref = None
     ref_name = None
+    cands: dict = {}
     deep = False
     for i, st in enumerate(lp.body):
         if any(isinstance(c, ast.Call) and isinstance(c.func, ast.Name) and c.func.id == var for c in ast.walk(st)):
             idx_call = i if idx_call is None else idx_call
         if isinstance(st, ast.If) and ast.unparse(st.test) == "debug" and idx_call is None and not st.orelse:
-            asg = [x for x in st.body if isinstance(x, (ast.Assign, ast.AnnAssign))]
-            if len(asg) == 1 and len(st.body) == 1:
-                tgt = asg[0].targets[0] if isinstance(asg[0], ast.Assign) else asg[0].target
-                v = ast.unparse(asg[0].value).replace(" ", "")
-                if isinstance(tgt, ast.Name) and v in ("detector.to_xarray().copy(deep=True)", "detector.to_xarray().copy()",
-                                                        "detector.to_xarray().copy(deep=False)", "detector.to_xarray()",
-                                                        "copy.deepcopy(detector.to_xarray())", "deepcopy(detector.to_xarray())"):
-                    ref_name, idx_ref = tgt.id, i
-                    deep = v in ("detector.to_xarray().copy(deep=True)", "copy.deepcopy(detector.to_xarray())",
-                                 "deepcopy(detector.to_xarray())")
+            # candidates: every name of the block whose value, with the block's named intermediate results written out,
+            # is `detector.to_xarray()` or a copy of it; the reference is the one the comparison uses (below)
+            benv = _assigns(st)
+            for x in st.body:
+                if N.is_noise(x):
+                    continue
+                tgt = x.targets[0] if isinstance(x, ast.Assign) and len(x.targets) == 1 else getattr(x, "target", None)
+                if not isinstance(x, (ast.Assign, ast.AnnAssign)) or not isinstance(tgt, ast.Name) or len(benv.get(tgt.id, [])) != 1:
+                    continue
+                v = ast.unparse(_written_out(x.value, benv)).replace(" ", "")
+                if v in ("detector.to_xarray().copy(deep=True)", "detector.to_xarray().copy()",
+                         "detector.to_xarray().copy(deep=False)", "detector.to_xarray()",
+                         "copy.deepcopy(detector.to_xarray())", "deepcopy(detector.to_xarray())"):
+                    cands[tgt.id] = (i, v in ("detector.to_xarray().copy(deep=True)", "copy.deepcopy(detector.to_xarray())",
+                                              "deepcopy(detector.to_xarray())"))
     if idx_call is None:
         fail(lp, "no model call")
+    after_all = [st for st in lp.body[idx_call + 1:] if isinstance(st, ast.If) and ast.unparse(st.test) == "debug"]
+    used = [k for k in cands if any(isinstance(n, ast.Name) and n.id == k for b_ in after_all for n in ast.walk(b_))]
+    if len(used) == 1:
+        ref_name, (idx_ref, deep) = used[0], cands[used[0]]
     if ref_name is None:
         fail(lp, "the reference of the debug comparison must be `detector.to_xarray()` (or a copy of it) taken in `if debug:` "
                  "BEFORE the model call")
@@ -712,59 +831,74 @@ def _debug(repo: Path) -> dict:
         fail(blk, "comparison loop over the data variables")
     cl = cmp_loops[0]
     nm, da = [e.id for e in cl.target.elts]
-    if len(cl.body) != 1 or not isinstance(cl.body[0], ast.If):
-        fail(cl, "comparison loop body")
-    top = cl.body[0]
-    alias = {k: ast.unparse(v[0]) for k, v in _assigns(cl).items() if len(v) == 1}
+    cenv = _assigns(cl)
+    alias = {k: ast.unparse(v[0]) for k, v in cenv.items() if len(v) == 1}
     # one level of aliasing: last_full_ds = <reference>
     refs = {ref_name} | {k for k, v in env.items() if len(v) == 1 and ast.unparse(v[0]) == ref_name}
-    if not (isinstance(top.test, ast.Compare) and ast.unparse(top.test.left) == nm and isinstance(top.test.ops[0], ast.In)
-            and ast.unparse(top.test.comparators[0]) in refs):
-        fail(top.test, "expected `if name in <reference>:`")
-    rname = ast.unparse(top.test.comparators[0])
-    inner = [n for n in top.body if isinstance(n, ast.If)]
-    if len(inner) != 1 or inner[0].orelse:
-        fail(top, "expected `if not np.allclose(<after>, <before>): <store>`")
-    it = inner[0].test
-    if not (isinstance(it, ast.UnaryOp) and isinstance(it.op, ast.Not) and _is_call(it.operand, "np.allclose")
-            and len(it.operand.args) == 2 and not it.operand.keywords):
-        fail(it, "expected `not np.allclose(a, b)`")
-    args = [alias.get(ast.unparse(a), ast.unparse(a)) for a in it.operand.args]
-    if sorted(args) != sorted([da, f"{rname}[{nm}]"]):
-        fail(it, "np.allclose must compare the variable with the same variable of the reference")
+    used_refs = set()
 
-    def store_path(stmts):
-        if len(stmts) != 1 or not isinstance(stmts[0], ast.Assign) or ast.unparse(stmts[0].value) != da:
-            fail(stmts[0] if stmts else top, "store of a changed variable")
-        tg = stmts[0].targets[0]
-        if not (isinstance(tg, ast.Subscript) and ast.unparse(tg.value) == "detector.intermediate" and isinstance(tg.slice, ast.JoinedStr)):
+    def make_atom(present, close):
+        def atom(t_):
+            if (isinstance(t_, ast.Compare) and len(t_.ops) == 1 and isinstance(t_.ops[0], (ast.In, ast.NotIn))
+                    and ast.unparse(t_.left) == nm and ast.unparse(t_.comparators[0]) in refs):
+                used_refs.add(ast.unparse(t_.comparators[0]))
+                return present if isinstance(t_.ops[0], ast.In) else not present
+            if _is_call(t_, "np.allclose") or _is_call(t_, "numpy.allclose"):
+                if len(t_.args) != 2 or t_.keywords:
+                    fail(t_, "expected `np.allclose(a, b)`")
+                args = [alias.get(ast.unparse(a_), ast.unparse(a_)) for a_ in t_.args]
+                ok = [r_ for r_ in refs if sorted(args) == sorted([da, f"{r_}[{nm}]"])]
+                if not ok:
+                    fail(t_, "np.allclose must compare the variable with the same variable of the reference")
+                used_refs.add(ok[0])
+                if not present:
+                    fail(t_, "the variable of the reference is read although the reference does not hold it")
+                return close
+            return None
+        return atom
+
+    def store_path(tg):
+        if not (isinstance(tg, ast.Subscript) and ast.unparse(tg.value) == "detector.intermediate"):
             fail(tg, "expected detector.intermediate[f'...'] = <variable>")
-        parts = []
-        for v in tg.slice.values:
-            if isinstance(v, ast.FormattedValue):
-                parts.append("{" + ast.unparse(v.value) + "}")
-            else:
-                parts.append(str(v.value))
-        return "".join(parts)
+        return N.expand_fstring(tg.slice, {**env, **cenv})
 
-    p1, p2 = store_path(inner[0].body), store_path(top.orelse)
-    if p1 != p2:
-        fail(top, "both stores must use the same path")
+    table, paths = {}, set()
+    for present in (False, True):
+        for close in (False, True):
+            n_st = 0
+            for st in N.execute(cl.body, make_atom(present, close)):
+                if not isinstance(st, (ast.Assign, ast.AnnAssign)):
+                    fail(st, "comparison loop body")
+                tg = st.targets[0] if isinstance(st, ast.Assign) else st.target
+                if isinstance(tg, ast.Name):
+                    if not present and any(ast.unparse(x).replace(" ", "") in [f"{r_}[{nm}]" for r_ in refs] for x in ast.walk(st.value)):
+                        fail(st, "the variable of the reference is read although the reference does not hold it")
+                    continue
+                if ast.unparse(st.value) != da:
+                    fail(st, "store of a changed variable")
+                paths.add(store_path(tg))
+                n_st += 1
+            if n_st > 1:
+                fail(cl, "a variable is stored twice")
+            table[(present, close)] = n_st == 1
+    if len(used_refs) != 1:
+        fail(cl, "expected `name in <reference>` and `np.allclose(<after>, <reference>[name])` on one reference")
+    if not all(v == (not (p_ and c_)) for (p_, c_), v in table.items()):
+        fail(cl, "a variable must be stored exactly when the reference does not hold it or np.allclose says it changed")
+    if len(paths) != 1:
+        fail(cl, "both stores must use the same path")
     comp = []
-    for seg in p1.split("/"):
-        if not (seg.startswith("{") and seg.endswith("}")):
-            fail(top, "node path segment")
-        v = env.get(seg[1:-1], [None])[0] if seg[1:-1] != nm else None
-        if seg[1:-1] == nm:
+    for seg in next(iter(paths)).split("/"):
+        if seg == "{" + nm + "}":
             comp.append("name")
-        elif isinstance(v, ast.JoinedStr) and ast.unparse(v) == "f'time_idx_{detector.pipeline_count}'":
+        elif seg == "time_idx_{detector.pipeline_count}":
             comp.append("time_idx")
-        elif v is not None and ast.unparse(v) == "self._name":
+        elif seg == "{self._name}":
             comp.append("group")
-        elif v is not None and ast.unparse(v) == f"{var}.name":
+        elif seg == "{" + var + ".name}":
             comp.append("model")
         else:
-            fail(top, f"node path segment {seg}")
+            fail(cl, f"node path segment {seg}")
     return dict(ref_before=idx_ref < idx_call, deep=deep, compare="allclose", path=comp)
 
 
